@@ -10,6 +10,8 @@
 //   reduce S:ctx S:dt S:op I:den A:x  N|I:axis  S:kT|kF|kt|kf  N|I:initial
 //   unaryx  S:ctx S:dt S:op L:shape S:<hex,hex,...>                          (adversarial values: every element is the
 //   binaryx S:ctx S:dt S:op L:lshape S:<hex,...> L:rshape S:<hex,...>         bit pattern of a double, cast to the dtype)
+//   lay S:ctx S:dt S:unary|binary|outer|reduce S:op S:<operand layouts r|c per operand> S:R|C I:den A:x [A:y | I:axis S:kT|kF]
+//        operand layouts: r = row-major ndarray, c = column_major ndarray; result layout through Row/ColumnMajorResolver
 // element = integer/den (den a power of two), 900001 -> -0.0, 900002 -> +inf, 900003 -> -inf, 900004 -> NaN
 // result: "ok <shape> ; <hex bit patterns>" (NaN printed as "nan").
 #ifndef C12_CTX
@@ -46,8 +48,10 @@ static const char* CTX_NAME = "none";
 
 #if C12_CTX == 0
 #define CALL(fn, ...) fn(__VA_ARGS__)
+#define CALLR(fn, res, ...) fn(__VA_ARGS__, nmtools::None, nmtools::None, res)
 #else
 #define CALL(fn, ...) fn(__VA_ARGS__, CTXV)
+#define CALLR(fn, res, ...) fn(__VA_ARGS__, CTXV, nmtools::None, res)
 #endif
 
 #include "nmtools/array/array/ufuncs/sqrt.hpp"
@@ -268,12 +272,62 @@ static std::string reduce(const Case& c) {
     return "unsupported";
 }
 
+// ---- operand layout x result layout, every SIMD entry (elements are printed by logical index)
+template <typename F>
+static std::string with_res(const std::string& res, F&& f) {
+    if (res == "R") return f(na::RowMajorResolver);
+    if (res == "C") return f(na::ColumnMajorResolver);
+    return "unsupported";
+}
+template <typename T, typename F>
+static std::string with_operand(char lay, const Arg& a, ll den, F&& f) {
+    if (lay == 'r') return f(mk<dyn_t<T>>(a, den));
+    if (lay == 'c') return f(mk<dyn_col_t<T>>(a, den));
+    return "unsupported";
+}
+
+template <typename T>
+static std::string lay(const Case& c) {
+    if (c.args.size() < 8) return "unsupported";
+    const std::string kind = c.args[2].raw.substr(2), op = c.args[3].raw.substr(2), lo = c.args[4].raw.substr(2), res = c.args[5].raw.substr(2);
+    ll den = c.args[6].val;
+    if (kind == "unary") {
+        if (op != "sqrt" || lo.size() != 1) return "unsupported";
+        return with_operand<T>(lo[0], c.args[7], den, [&](const auto& x) {
+            return with_res(res, [&](auto r) { return showbits(CALLR(na::sqrt, r, x)); }); });
+    }
+    if (kind == "binary" || kind == "outer") {
+        if (lo.size() != 2 || c.args.size() < 9 || lo == "rc") return "unsupported";
+        return with_operand<T>(lo[0], c.args[7], den, [&](const auto& x) {
+            return with_operand<T>(lo[1], c.args[8], den, [&](const auto& y) {
+                return with_res(res, [&](auto r) -> std::string {
+                    if (kind == "binary") {
+                        if (op == "add") return showbits(CALLR(na::add, r, x, y));
+                        if (op == "subtract") return showbits(CALLR(na::subtract, r, x, y));
+                    } else {
+                        if (op == "subtract") return showbits(CALLR(na::subtract.outer, r, x, y, nm::None));
+                    }
+                    return "unsupported"; }); }); });
+    }
+    if (kind == "reduce") {
+        if (op != "add" || lo.size() != 1 || c.args.size() < 10) return "unsupported";
+        int axis = (int)c.args[8].val; const std::string kd = c.args[9].raw.substr(2);
+        return with_operand<T>(lo[0], c.args[7], den, [&](const auto& x) {
+            return with_res(res, [&](auto r) -> std::string {
+                if (kd == "kT") return showbits(CALLR(na::add.reduce, r, x, axis, nm::None, nm::None, nm::True));
+                if (kd == "kF") return showbits(CALLR(na::add.reduce, r, x, axis, nm::None, nm::None, nm::False));
+                return "unsupported"; }); });
+    }
+    return "unsupported";
+}
+
 static std::string handle(const Case& c) {
     if (c.args.size() < 5) return "unsupported";
     if (c.args[0].raw.substr(2) != CTX_NAME) return "unsupported";
     const std::string dt = c.args[1].raw.substr(2);
     auto go = [&](auto tag) -> std::string {
         using T = decltype(tag);
+        if (c.op == "lay") return lay<T>(c);
         if (c.op == "unaryx") return unaryx<T>(c);
         if (c.op == "binaryx") return binaryx<T>(c);
         if (c.op == "unary") return unary<T>(c);
